@@ -147,6 +147,9 @@ _C03_SPECS = c03.specs
 def specs(ctx):
     out = _C03_SPECS(ctx)
     out.append(l1.Spec(B=4, workers=2, moves=["sh", "wf", "wf", "sh"], alphabet="ha", cap=2.5))
+    if ctx.quick:
+        # re-sorting with two paths to move needs four plus ensembles with staggered reaches
+        out.append(l1.Spec(B=5, workers=1))
     if not ctx.quick:
         out.append(l1.Spec(B=4, workers=3, moves=["sh", "wf", "wf", "wf"], alphabet="ha"))
     return out
